@@ -21,24 +21,40 @@
                        consistent with sem[h] = b (Restrict); "contradiction" only if none exists
      BuildPostfix / BuildInfix / evaluators     denote sem[h]
      FlagInternal      "simple" => sem[h] is a sub-cube (conjunction of literals)          *)
-EXTENDS Integers, Sequences, FiniteSets, SequencesExt, TLC
+EXTENDS Integers, Sequences, FiniteSets, SequencesExt, Bitwise, TLC
 
 \* --------------------------------------------------------------- assignments
 Pow2(n) == 2 ^ n
 AllA(ns) == 0 .. (Pow2(ns) - 1)
 Bit(a, s) == (a \div Pow2(s)) % 2 = 1
 
-\* A boolean function of ns surfaces is handled as its TRUTH TABLE: a sequence of 2^ns
-\* booleans, entry a + 1 is the value on assignment a (the characteristic function of the
-\* set of satisfying assignments; TSet gives the set view).  Tables keep TLC linear in 2^ns.
-Idx(ns) == 1 .. Pow2(ns)
-TConst(ns, b) == [i \in Idx(ns) |-> b]
-TSurf(ns, s) == [i \in Idx(ns) |-> Bit(i - 1, s)]
-TNot(x) == [i \in DOMAIN x |-> ~x[i]]
-TAnd(x, y) == [i \in DOMAIN x |-> x[i] /\ y[i]]
-TOr(x, y) == [i \in DOMAIN x |-> x[i] \/ y[i]]
-TSet(ns, x) == {a \in AllA(ns) : x[a + 1]}
-TOfSet(ns, F) == [i \in Idx(ns) |-> (i - 1) \in F]
+\* A boolean function of ns surfaces is handled as its TRUTH TABLE with 2^ns entries (entry a
+\* = value on assignment a), packed LB bits per integer ("limbs", least significant bit
+\* first) so that TLC works on whole limbs with the Bitwise operators: a table is a sequence
+\* of NL(ns) naturals < 2^LB.  TBit reads one entry, TSet gives the set view.
+LB == 30
+NL(ns) == (Pow2(ns) + LB - 1) \div LB
+LimbBits(n, j) == IF LB * j <= n THEN LB ELSE n - LB * (j - 1)      \* bits used in limb j of an n-entry table
+TFullN(n) == TLCEval([j \in 1 .. ((n + LB - 1) \div LB) |-> Pow2(LimbBits(n, j)) - 1])
+TFull(ns) == TFullN(Pow2(ns))
+TZero(ns) == TLCEval([j \in 1 .. NL(ns) |-> 0])
+TConst(ns, b) == IF b THEN TFull(ns) ELSE TZero(ns)
+TBit(x, a) == (x[(a \div LB) + 1] \div Pow2(a % LB)) % 2 = 1
+TSurf(ns, s) ==
+  TLCEval([j \in 1 .. NL(ns) |->
+             FoldLeft(LAMBDA acc, k : IF Bit(LB * (j - 1) + k, s) THEN acc + Pow2(k) ELSE acc,
+                      0, [k \in 1 .. LimbBits(Pow2(ns), j) |-> k - 1])])
+TAnd(x, y) == TLCEval([j \in DOMAIN x |-> x[j] & y[j]])
+TOr(x, y) == TLCEval([j \in DOMAIN x |-> x[j] | y[j]])
+TXor(x, y) == TLCEval([j \in DOMAIN x |-> x[j] ^^ y[j]])
+TNotF(full, x) == TXor(x, full)
+TNot(ns, x) == TXor(x, TFull(ns))
+TIsZero(x) == \A j \in DOMAIN x : x[j] = 0
+TSet(ns, x) == {a \in AllA(ns) : TBit(x, a)}
+TOfSet(ns, F) ==
+  TLCEval([j \in 1 .. NL(ns) |->
+             FoldLeft(LAMBDA acc, k : IF (LB * (j - 1) + k) \in F THEN acc + Pow2(k) ELSE acc,
+                      0, [k \in 1 .. LimbBits(Pow2(ns), j) |-> k - 1])])
 
 \* ------------------------------------------------------------------ nodes
 Nd(k, a) == [k |-> k, a |-> a]
@@ -74,10 +90,10 @@ NodeSem(ns, nd, tt) ==
   CASE nd.k = "true"  -> TConst(ns, TRUE)
     [] nd.k = "false" -> TConst(ns, FALSE)
     [] nd.k = "surf"  -> TSurf(ns, nd.a[1])
-    [] nd.k = "not"   -> TNot(tt[nd.a[1] + 1])
+    [] nd.k = "not"   -> TNot(ns, tt[nd.a[1] + 1])
     [] nd.k = "alias" -> tt[nd.a[1] + 1]
-    [] nd.k = "and"   -> [i \in Idx(ns) |-> \A j \in DOMAIN nd.a : tt[nd.a[j] + 1][i]]
-    [] nd.k = "or"    -> [i \in Idx(ns) |-> \E j \in DOMAIN nd.a : tt[nd.a[j] + 1][i]]
+    [] nd.k = "and"   -> FoldLeft(LAMBDA acc, r : TAnd(acc, tt[r + 1]), TFull(ns), nd.a)
+    [] nd.k = "or"    -> FoldLeft(LAMBDA acc, r : TOr(acc, tt[r + 1]), TZero(ns), nd.a)
 TT(ns, tree) == FoldLeft(LAMBDA tt, nd : Append(tt, NodeSem(ns, nd, tt)), <<>>, tree)
 Sem(ns, tree, n) == TSet(ns, TT(ns, tree)[n + 1])
 
@@ -115,18 +131,21 @@ CubeHull(ns, F) ==
       ff == {s \in 0 .. (ns - 1) : Forced(ns, F, s, FALSE)}
   IN {a \in AllA(ns) : (\A s \in ft : Bit(a, s)) /\ (\A s \in ff : ~Bit(a, s))}
 IsCubeFast(ns, F) == F = {} \/ F = CubeHull(ns, F)
-\* the same on a truth table
+\* the same on a truth table: forced literals = surfaces whose table contains / is disjoint from x
 IsCubeT(ns, x) ==
-  LET on == {i \in Idx(ns) : x[i]}
-      ft == {s \in 0 .. (ns - 1) : \A i \in on : Bit(i - 1, s)}
-      ff == {s \in 0 .. (ns - 1) : \A i \in on : ~Bit(i - 1, s)}
-  IN on = {} \/ \A i \in Idx(ns) : x[i] = ((\A s \in ft : Bit(i - 1, s)) /\ (\A s \in ff : ~Bit(i - 1, s)))
+  LET sa == [s \in 1 .. ns |-> TSurf(ns, s - 1)]
+      ft == {s \in 1 .. ns : TIsZero(TAnd(x, TNot(ns, sa[s])))}
+      ff == {s \in 1 .. ns : TIsZero(TAnd(x, sa[s]))}
+      hull == FoldLeft(LAMBDA acc, s : IF s \in ft THEN TAnd(acc, sa[s])
+                                      ELSE IF s \in ff THEN TAnd(acc, TNot(ns, sa[s])) ELSE acc,
+                       TFull(ns), [s \in 1 .. ns |-> s])
+  IN TIsZero(x) \/ x = hull
 \* F restricted to the assignments on which the function G has value b
 RestrictTo(F, G, b) == IF b THEN F \cap G ELSE F \ G
 Consistent(ns, G, b) == IF b THEN G ELSE AllA(ns) \ G
 \* on tables: x and y agree wherever g has value b; some assignment gives g the value b
-AgreeOn(x, y, g, b) == \A i \in DOMAIN g : (g[i] = b) => (x[i] = y[i])
-Satisfiable(g, b) == \E i \in DOMAIN g : g[i] = b
+AgreeOn(ns, x, y, g, b) == TIsZero(TAnd(TXor(x, y), IF b THEN g ELSE TNot(ns, g)))
+Satisfiable(ns, g, b) == ~TIsZero(IF b THEN g ELSE TNot(ns, g))
 
 \* ------------------------------------------------------------ logic tokens
 \* orange/OrangeTypes.hh logic::OperatorToken are the six highest values of logic_int
@@ -167,7 +186,8 @@ EvalPostfix(logic, faces, a) ==
   LET r == PostfixRunAt(logic, faces, a) IN PostfixWF(r) /\ r.st[1]
 \* lifted to truth tables over n "worlds" (assignments or samples); FW(i) = table of face index i
 PostfixRunTbl(logic, nfaces, n, FW(_)) ==
-  PostfixRun(logic, nfaces, [i \in 1 .. n |-> TRUE], TNot, TAnd, TOr, FW)
+  LET full == TFullN(n) IN
+  PostfixRun(logic, nfaces, full, LAMBDA x : TNotF(full, x), TAnd, TOr, FW)
 PostfixRunSem(ns, logic, faces) ==
   LET sa == [s \in 1 .. ns |-> TSurf(ns, s - 1)] IN
   PostfixRunTbl(logic, Len(faces), Pow2(ns), LAMBDA i : sa[faces[i + 1] + 1])
@@ -221,8 +241,8 @@ InfixStrAt(toks, a) ==
 EvalInfixStr(toks, a) == LET r == InfixStrAt(toks, a) IN InfixStrWF(r) /\ r.fr[1].acc
 InfixStrSem(ns, toks) ==
   LET sa == [s \in 1 .. ns |-> TSurf(ns, s - 1)] IN
-  InfixStrRun(toks, TConst(ns, TRUE), TConst(ns, FALSE), TNot, TAnd, TOr,
-              LAMBDA s : IF s < ns THEN sa[s + 1] ELSE TConst(ns, FALSE))
+  InfixStrRun(toks, TFull(ns), TZero(ns), LAMBDA x : TNot(ns, x), TAnd, TOr,
+              LAMBDA s : IF s < ns THEN sa[s + 1] ELSE TZero(ns))
 
 \* ---------------------------------- explicit infix logic (runtime InfixEvaluator)
 \* Tokens: face ids, LOpen, LClose, LTrue, LAnd, LOr, LNot (LNot only directly before a face).
@@ -259,8 +279,8 @@ InfixTokAt(toks, a) ==
 EvalInfixTok(toks, a) == LET r == InfixTokAt(toks, a) IN InfixTokWF(r) /\ r.fr[1].acc
 InfixTokSem(ns, toks) ==
   LET sa == [s \in 1 .. ns |-> TSurf(ns, s - 1)] IN
-  InfixTokRun(toks, TConst(ns, TRUE), TNot, TAnd, TOr,
-              LAMBDA s : IF s < ns THEN sa[s + 1] ELSE TConst(ns, FALSE))
+  InfixTokRun(toks, TFull(ns), LAMBDA x : TNot(ns, x), TAnd, TOr,
+              LAMBDA s : IF s < ns THEN sa[s + 1] ELSE TZero(ns))
 
 \* ------------------------------------------------------------ the request alphabet
 \* canonical order of the exhaustive enumeration, shared with harness/vcsg.cc (all_requests):
@@ -338,8 +358,8 @@ ExchangeOK(ns, tree, tt, n, b, after) ==
       tt2 == TT(ns, after) IN
   /\ Len(after) = Len(tree)
   /\ WFTree(after)
-  /\ \A m \in 1 .. Len(tree) : AgreeOn(tt2[m], tt[m], g, b)
-  /\ Satisfiable(g, b) => tt2[n + 1] = TConst(ns, b)
+  /\ \A m \in 1 .. Len(tree) : AgreeOn(ns, tt2[m], tt[m], g, b)
+  /\ Satisfiable(ns, g, b) => tt2[n + 1] = TConst(ns, b)
 
 \* transform_negated_joins: new tree, volume i of the result denotes what volume i denoted
 DeMorganOK(ns, tt, vols, after, avols) ==
@@ -356,10 +376,10 @@ ReplaceOK(ns, tree, tt, key, b, after, unknown) ==
   IN
   /\ Len(after) = Len(tree)
   /\ WFTree(after)
-  /\ \A n \in 1 .. Len(tree) : AgreeOn(tt2[n], tt[n], g, b)     \* Restrict(sem'[n]) = Restrict(sem[n])
-  /\ Satisfiable(g, b) => tt2[key + 1] = TConst(ns, b)          \* the key really became the constant
+  /\ \A n \in 1 .. Len(tree) : AgreeOn(ns, tt2[n], tt[n], g, b)     \* Restrict(sem'[n]) = Restrict(sem[n])
+  /\ Satisfiable(ns, g, b) => tt2[key + 1] = TConst(ns, b)          \* the key really became the constant
   /\ \A i \in DOMAIN unknown : unknown[i] >= 0 /\ unknown[i] < Len(after) /\ after[unknown[i] + 1].k = "surf"
 \* the RuntimeError "logical contradiction" is allowed IFF no assignment gives the key the value b
-ContradictionOK(ns, tt, key, b) == ~Satisfiable(tt[key + 1], b)
+ContradictionOK(ns, tt, key, b) == ~Satisfiable(ns, tt[key + 1], b)
 
 =============================================================================
